@@ -345,7 +345,7 @@ func recoverRename(e *Engine, pkg, key string, sc *staleContractErr, o checkOpts
 		for _, in := range b.Instrs {
 			if a, ok := in.(*ssa.Alloc); ok && a.Comment != "" && !strings.ContainsAny(a.Comment, "$ ") && !seen[a.Comment] {
 				seen[a.Comment] = true
-				if !regexp.MustCompile(`\b` + regexp.QuoteMeta(a.Comment) + `\b`).MatchString(text) {
+				if !regexp.MustCompile(`(^|[^.\w$])` + regexp.QuoteMeta(a.Comment) + `\b`).MatchString(text) {
 					locals = append(locals, a.Comment)
 				}
 			}
